@@ -7,6 +7,7 @@ import (
 	"fmt"
 	"net/http"
 	"net/url"
+	"strconv"
 	"strings"
 
 	"github.com/gorilla/websocket"
@@ -108,7 +109,17 @@ func genOriginCase(t *rapid.T) OriginCase {
 			c.Origin = scheme + "://" + host + ".com" + tail
 		}
 	case "port-different":
-		np := rapid.SampledFrom([]string{"8081", "80", "443", "8080", "808", "80800", "08080", "0"}).Draw(t, "newport")
+		np := rapid.SampledFrom([]string{"8081", "80", "443", "8080", "808", "80800", "08080", "0", "+65536", "+131072", "+4294967296", "-65536"}).Draw(t, "newport")
+		if np[0] == '+' || np[0] == '-' {
+			// the Host's port plus a multiple of 2^16 or 2^32: equal only to
+			// arithmetic that wraps
+			base, _ := strconv.Atoi(port)
+			if port == "" {
+				base = 80
+			}
+			d, _ := strconv.Atoi(np)
+			np = strconv.Itoa(base + d)
+		}
 		if np == port {
 			np = np + "1"
 		}
